@@ -66,8 +66,8 @@ OBLIGATIONS = [
     kani("c10_orientation_of_wall", ["C10", "C11"], "C10.wall", "Orientation::from(&Wall) / Tilt::from(&Wall)"),
     kani("c11_poly_degenerate", ["C11"], "C11.poly.degenerate", "Polygon::area / perimeter", bounded="0 and 1 vertex"),
     kani("c13_aabb_slab_exact", ["C13"], "C13.aabb.slab.exact", "AABB::intersects", bounded="integer boxes / origins in [-20,20], direction components in {-1,-0.0,+0.0,1}: all products exact", timeout=900),
-    kani("c13_pip_triangle_3", ["C13"], "C13.pip.triangle", "bemodel::energy::raytracing::ray::point_in_poly", bounded="triangles with integer corners in [-3,3]^2, integer points off the side lines (all of them)", timeout=600),
-    kani("c13_pip_triangle_5", ["C13"], "C13.pip.triangle", "bemodel::energy::raytracing::ray::point_in_poly", tier="thorough", bounded="triangles with integer corners in [-5,5]^2, integer points off the side lines (all of them)", timeout=1800),
+    kani("c13_pip_triangle_3", ["C13", "C12"], "C13.pip.triangle", "bemodel::energy::raytracing::ray::point_in_poly", bounded="triangles with integer corners in [-3,3]^2, integer points off the side lines (all of them)", timeout=600),
+    kani("c13_pip_triangle_5", ["C13", "C12"], "C13.pip.triangle", "bemodel::energy::raytracing::ray::point_in_poly", tier="thorough", bounded="triangles with integer corners in [-5,5]^2, integer points off the side lines (all of them)", timeout=1800),
     # ---- C06 leaves -----------------------------------------------------------------------------------
     kani("c06_fround2_contract", ["C06", "C07", "C08"], "C06.fround2", "bemodel::utils::fround2 (kani::requires/ensures, proof_for_contract)", timeout=600),
     kani("c06_fround3_contract", ["C06"], "C06.fround3", "bemodel::utils::fround3 (kani::requires/ensures, proof_for_contract)", tier="thorough", timeout=1800),
@@ -131,8 +131,8 @@ OBLIGATIONS = [
     native("n_c13_bvh_many", ["C13", "C14"], "C13.bvh.many", "BVH::build / partition_elements_by_centroid", BV + "n_c13_bvh_many", crash=True, timeout=120),
     native("n_c13_partition", ["C13"], "C13.partition", "BVH::partition_elements_by_centroid (the plane step's contract P' is assumed by the Verus unit; P is proved there)", BV + "n_c13_partition"),
     native("n_c13_partition_identical", ["C13"], "C13.partition.identical", "BVH::partition_elements_by_centroid (the plane step's contract P' is assumed by the Verus unit; P is proved there)", BV + "n_c13_partition_identical"),
-    native("n_c13_point_in_poly", ["C13"], "C13.pip", "raytracing::ray::point_in_poly", RY + "n_c13_point_in_poly"),
-    native("n_c13_ray_polygon", ["C13"], "C13.ray.poly", "Ray::intersects_with_data", RY + "n_c13_ray_polygon"),
+    native("n_c13_point_in_poly", ["C13", "C12"], "C13.pip", "raytracing::ray::point_in_poly", RY + "n_c13_point_in_poly"),
+    native("n_c13_ray_polygon", ["C13", "C12"], "C13.ray.poly", "Ray::intersects_with_data", RY + "n_c13_ray_polygon"),
     native("n_c13_ray_posed", ["C13"], "C13.ray.posed", "impl Intersectable for WallGeom / WallGeom::to_global_coords_matrix", EN + "n_c13_ray_posed"),
     native("n_c13_occluder_equiv", ["C13", "C12"], "C13.occluder", "Model::collect_occluders / impl Intersectable for &Occluder", EN + "n_c13_occluder_equiv"),
     native("n_c13_geom_aabb", ["C13"], "C13.geom.aabb", "impl Bounded for WallGeom (aabb)", EN + "n_c13_geom_aabb"),
@@ -152,6 +152,7 @@ OBLIGATIONS = [
     native("n_c02_protections", ["C02"], "C02.protections", "windows_and_shades_from_bdl (ids of the overhang / fin shades generated from window attributes)", CV + "n_c02_protections"),
     native("n_c02_value_edits", ["C02"], "C02.value_edits", "hulc::ctehexml::parse_with_catalog + Model::try_from (cons_from_bdl purge of unused glazings / frames / materials) on projects with one rewritten number", CV + "n_c02_value_edits", timeout=900, timeout_thorough=6000, sampled="quick"),
     native("n_c02_broken_refs", ["C02"], "C02.broken", "hulc::ctehexml::parse_with_catalog + Model::try_from on projects with one dangling name", CV + "n_c02_broken_refs"),
+    native("n_c02_case_twins", ["C02"], "C02.case_twins", "cons_from_bdl (the lists of constructions in use) on projects with constructions whose names differ only in case", CV + "n_c02_case_twins"),
     native("n_c02_broken_sites", ["C02"], "C02.broken_sites", "hulc::ctehexml::parse_with_catalog + Model::try_from on projects with one written reference renamed", CV + "n_c02_broken_sites", timeout=900),
     native("n_c05_convert_repeat", ["C05"], "C05.convert", "hulc::ctehexml::parse_with_catalog + Model::try_from + Model::as_json (uuid_from_obj ids, collection order)", CV + "n_c05_convert_repeat", timeout=600, sampled="always"),
     native("n_c05_degenerate_repeat", ["C05"], "C05.degenerate", "Model::try_from + as_json on projects with one degenerate element (a function of the project text only)", CV + "n_c05_degenerate_repeat", timeout=900),
